@@ -1,6 +1,7 @@
 package main
 
 import (
+	"go/constant"
 	"go/token"
 	"go/types"
 	"regexp"
@@ -55,7 +56,7 @@ func (a *atomizer) atom(cond ssa.Value) (string, bool) {
 	case *ssa.BinOp:
 		lhs, rhs := x.X, x.Y
 		// flag tests: strat&K > 0, strat&K != 0, strat != 0
-		if k, ok := rhs.(*ssa.Const); ok && k.Value != nil && k.Int64() == 0 {
+		if k, ok := rhs.(*ssa.Const); ok && k.Value != nil && k.Value.Kind() == constant.Int && k.Int64() == 0 {
 			if and, ok := lhs.(*ssa.BinOp); ok && and.Op == token.AND {
 				if bit, ok := and.Y.(*ssa.Const); ok && (x.Op == token.GTR || x.Op == token.NEQ) {
 					return sprintf("flag(%s&%d)", a.o(and.X), bit.Int64()), true
